@@ -56,8 +56,8 @@ def jeq(a, b):
 def typed_repr(v):
     """repr that shows concrete types (1 vs 1.0 vs True), for exact compare."""
     if isinstance(v, dict):
-        return '{' + ','.join(
-            '%s:%s' % (typed_repr(k), typed_repr(v[k])) for k in v) + '}'
+        return '{' + ','.join(sorted(
+            '%s:%s' % (typed_repr(k), typed_repr(v[k])) for k in v)) + '}'
     if isinstance(v, list):
         return '[' + ','.join(typed_repr(x) for x in v) + ']'
     if isinstance(v, tuple):
